@@ -59,8 +59,17 @@ type genericBlock struct {
 	opts              *warcRecordOptions
 	rawBytes          io.Reader
 	blockDigest       *digest
+	payloadDigest     *digest // only set when the payload is the whole block (resource records)
 	filterReader      *digestFilterReader
 	blockDigestString string
+}
+
+// digests returns the digests which must see every byte of the block.
+func (block *genericBlock) digests() []*digest {
+	if block.payloadDigest != nil {
+		return []*digest{block.blockDigest, block.payloadDigest}
+	}
+	return []*digest{block.blockDigest}
 }
 
 func newGenericBlock(opts *warcRecordOptions, r io.Reader, d *digest) *genericBlock {
@@ -101,7 +110,7 @@ func (block *genericBlock) Close() error {
 
 func (block *genericBlock) RawBytes() (io.Reader, error) {
 	if block.filterReader == nil {
-		block.filterReader = newDigestFilterReader(block.rawBytes, block.blockDigest)
+		block.filterReader = newDigestFilterReader(block.rawBytes, block.digests()...)
 		return block.filterReader, nil
 	}
 
@@ -122,7 +131,7 @@ func (block *genericBlock) RawBytes() (io.Reader, error) {
 func (block *genericBlock) BlockDigest() string {
 	if block.blockDigestString == "" {
 		if block.filterReader == nil {
-			block.filterReader = newDigestFilterReader(block.rawBytes, block.blockDigest)
+			block.filterReader = newDigestFilterReader(block.rawBytes, block.digests()...)
 		}
 		_, _ = io.Copy(io.Discard, block.filterReader)
 		block.blockDigestString = block.blockDigest.format()
